@@ -816,7 +816,7 @@ def _is_mut_ref(a):
 
 def _ends_err(t):
     its = items(t)
-    return bool(its) and its[-1][0] in ('ERR',)
+    return bool(its) and its[-1][0] in ('ERR', 'PANIC')
 
 
 def _subst_cbarg(t, ty, recv):
